@@ -27,11 +27,16 @@ RangeList = List[Tuple[Optional[int], Optional[int]]]
 def _parseparam(s):
     while s[:1] == ';':
         s = s[1:]
-        end = s.find(';')
-        while end > 0 and (s.count('"', 0, end) - s.count('\\"', 0, end)) % 2:
-            end = s.find(';', end + 1)
-        if end < 0:
-            end = len(s)
+        end = 0
+        quoted = False
+        while end < len(s):         # find next semicolon outside of quotes
+            if quoted and s[end] == '\\':
+                end += 1            # skip escaped character
+            elif s[end] == '"':
+                quoted = not quoted
+            elif s[end] == ';' and not quoted:
+                break
+            end += 1
         f = s[:end]
         yield f.strip()
         s = s[end:]
